@@ -123,9 +123,13 @@ class SimErrorCalculator(ErrorCalculator):
     mode: 'mix' (zero / tie / uniform by keyed class draw), 'equal' (all 1.0), 'zero' (all 0.0).
     With use_epoch the evaluation counter enters the key (only in runs that are never resumed)."""
 
-    def __init__(self, key, p_zero=0.3, p_tie=0.1, mode="mix", use_epoch=False):
+    def __init__(self, key, p_zero=0.3, p_tie=0.1, mode="mix", use_epoch=False, bias=None, domain=None):
         super().__init__(print_level=100, log_level=100)
         self.key = key
+        # bias: None | ("right" | "left", k): answers of the dimension-wise intervals are weighted by the interval's relative
+        # position to the power k, which makes lopsided refinement trees (the ones rebalancing rotates near the top)
+        self.bias = bias
+        self.domain = domain
         self.p_zero = p_zero
         self.p_tie = p_tie
         self.mode = mode
@@ -156,7 +160,14 @@ class SimErrorCalculator(ErrorCalculator):
 
     def calc_error(self, refine_object, norm, volume_weights=None):
         self.asked += 1
-        return self.answer(self.question(refine_object))
+        v = self.answer(self.question(refine_object))
+        bias = getattr(self, "bias", None)
+        if bias and hasattr(refine_object, "this_dim") and getattr(self, "domain", None):
+            d = int(refine_object.this_dim)
+            lo, hi = self.domain[0][d], self.domain[1][d]
+            t = (0.5 * (float(refine_object.start) + float(refine_object.end)) - lo) / (hi - lo)
+            v *= (t if bias[0] == "right" else 1.0 - t) ** bias[1]
+        return v
 
 
 class AffineModel(Function):
